@@ -190,6 +190,12 @@ pub fn run_c10(cfg: &RunCfg, trace: bool) -> RunOut {
             cx.violate(i, format!("C10|{}|{}", shape, k), d);
             return true;
         }
+        // after the step with the injected failure the run ends: the statement is about what a
+        // FAILED re-creation may show (nothing new), not about how the overlay's bookkeeping
+        // recovers afterwards (an upper copy may exist behind a marker that was not cleared yet)
+        if i > 0 && cx.cfg.fault.as_ref().map(|p| p.op_index + 1 == i).unwrap_or(false) && !got.is_ok() {
+            return true;
+        }
         false
     });
     // the same history through the async overlay (every 3rd run; same injected failure)
@@ -264,6 +270,9 @@ fn run_c10_async(cfg: &RunCfg, out: &mut RunOut) {
         };
         if let Some((k, d)) = tr.check(&snap, &world.m[0], i, op) {
             out.violations.push(Violation { property: "C10".into(), key: format!("C10|{}|{}", shape, k), detail: format!("async overlay: {}", d), step: i });
+            return;
+        }
+        if faulted && !got.is_ok() {
             return;
         }
     }
